@@ -1,5 +1,6 @@
 import CookModel.Basic.Proto
 import CookModel.Side.Report
+import CookModel.Side.ReportWidths
 import CookModel.Driver.Render
 /-
   Line-protocol handler that ties Side/Report.lean (label preparation of `SourceReport::write`) to the code:
@@ -53,6 +54,73 @@ def handleReport : List String → Option String
     let ds ← (if diags == "-" then some [] else (diags.splitOn ";").mapM parseDiagLabels?)
     let r := reportPrep s ds
     return if r.isEmpty then "-" else " ".intercalate (r.map rPrep)
+  | _ => none
+
+/-
+    report_widths <text> <diags> <table>   `<diags>` as for `report_prep`, but a label is `start.end.t` (it carries a
+                                   text) or `start.end.n`; `<table>` = `-` or `;`-separated `<code points>=<width>`:
+                                   `UnicodeWidthStr::width` of the strings involved (tabs already expanded), from the
+                                   real unicode-width; a string not in the table has width 0
+    reply: one entry per diagnostic in write order: `N` | `R` | `PANIC` | `W<gutter width>[<line>;…]` with
+           `<line>` = `L<line number>:<part>,…`, `<part>` = `i<w>` incoming, `o<w>` outgoing, `p<w>` unlabelled (left
+           out when `w = 0`: nothing is drawn for it), `l<w>` labelled without text, `l<w/2 + 1 + (w - (w/2+1))>`
+           labelled with text (`CodeWidth::left_right`, the `┬` row drawn under it) — what the underline row shows.
+-/
+def parseSpanFlag? (s : String) : Option (Span × Bool) :=
+  match s.splitOn "." with
+  | [a, b, f] => do
+    let a ← a.toNat?
+    let b ← b.toNat?
+    some (⟨a, b⟩, f == "t")
+  | _ => none
+
+def parseDiagFlags? (s : String) : Option (Diag × List Bool) :=
+  match s.splitOn ":" with
+  | [sev, ls] => do
+    let sev ← (if sev == "W" then some Sev.warning else if sev == "E" then some Sev.error else none)
+    let labels ← (if ls == "-" then some [] else (ls.splitOn ",").mapM parseSpanFlag?)
+    some (⟨sev, .parse, "", labels.map (·.1)⟩, (labels.mergeSort (fun x y => Span.le x.1 y.1)).map (·.2))
+  | _ => none
+
+def parseWidthEntry? (s : String) : Option (String × Nat) :=
+  match s.splitOn "=" with
+  | [k, v] => v.toNat?.map (fun n => (k, n))
+  | _ => none
+
+/-- the parts of one line as the underline row shows them; `flags` = has-text flags of the labels not yet drawn -/
+def rWParts : List (PartKind × List Char × Nat) → List Bool → List String × List Bool
+  | [], fl => ([], fl)
+  | (k, _, w) :: rest, fl =>
+    match k with
+    | .incoming => let r := rWParts rest fl; (s!"i{w}" :: r.1, r.2)
+    | .outgoing => let r := rWParts rest fl; (s!"o{w}" :: r.1, r.2)
+    | .plain => let r := rWParts rest fl; (if w = 0 then r.1 else s!"p{w}" :: r.1, r.2)
+    | .labelled =>
+      let r := rWParts rest fl.tail
+      ((if fl.headD false then s!"l{w / 2 + 1 + (w - (w / 2 + 1))}" else s!"l{w}") :: r.1, r.2)
+
+def rWLines : List WLine → List Bool → List String
+  | [], _ => []
+  | (n, ps) :: rest, fl => (s!"L{n}:" ++ ",".intercalate (rWParts ps fl).1) :: rWLines rest (rWParts ps fl).2
+
+def rWidthResult (r : WidthResult) (flags : List Bool) : String :=
+  match r with
+  | .noLabels => "N"
+  | .rejected => "R"
+  | .panic _ => "PANIC"
+  | .block lines =>
+    s!"W{lineNoWidth ((lines.getLast?.map (·.1)).getD 0)}[" ++ ";".intercalate (rWLines lines flags) ++ "]"
+
+def handleReportWidths : List String → Option String
+  | ["report_widths", txt, diags, table] => do
+    let s ← parseText? txt
+    let ds ← (if diags == "-" then some [] else (diags.splitOn ";").mapM parseDiagFlags?)
+    let tbl ← (if table == "-" then some [] else (table.splitOn ";").mapM parseWidthEntry?)
+    let sw : List Char → Nat := fun t => (tbl.lookup (rCps t)).getD 0
+    -- write order: warnings, then errors (`reportOrder`), flags along
+    let ordered := ds.filter (fun d => d.1.sev == .warning) ++ ds.filter (fun d => d.1.sev == .error)
+    let r := ordered.map (fun d => rWidthResult (reportWidthsDiag sw s d.1.labels) d.2)
+    return if r.isEmpty then "-" else " ".intercalate r
   | _ => none
 
 end Cook.Driver
